@@ -3,6 +3,7 @@
 (* removeVariable / item assignment, deletion / cssText assignment.                *)
 EXTENDS VarBlockContract
 CONSTANTS Lits, Values, MaxLen, MaxHist
+CONSTANT Emit   \* TRUE in the behaviour-generation configs: print every explored transition
 VARIABLES list, hist
 vars == <<list, hist>>
 
@@ -14,6 +15,7 @@ Alphabet ==
     \cup {[op |-> "settext", decls |-> ds] : ds \in TextDecls}
 
 Act(a) == Len(hist) < MaxHist /\ list' = Ref(list, a).list /\ hist' = Append(hist, a)
+          /\ (Emit => PrintT(<<"HIST", ToJson([h |-> Append(hist, a), s |-> list])>>))
 Init == list = <<>> /\ hist = <<>>
 Next == \E a \in Alphabet : Act(a)
 Spec == Init /\ [][Next]_vars
@@ -29,6 +31,6 @@ RemoveThenAbsent == [][LET a == hist'[Len(hist')] IN
 RejectedUnchanged == [][Ref(list, hist'[Len(hist')]).out \in DOMExc => list' = list]_vars
 RefAccepted == [][FirstFailing(list, hist'[Len(hist')], Ref(list, hist'[Len(hist')])) = "ok"]_vars
 
-EmitHist == PrintT(<<"HIST", ToJson([h |-> hist, s |-> list])>>)
+EmitWalk == Len(hist) = MaxHist => PrintT(<<"WALK", ToJson(hist)>>)
 EmitAlphabet == hist = <<>> => PrintT(<<"ALPHABET", ToJson(Alphabet)>>)
 =============================================================================
